@@ -51,6 +51,25 @@ type rec struct {
 	objstm bool
 	// no expected value (container written by the Writer with a filter)
 	noVal bool
+	// a stream whose data ends in an end-of-line: the digests of the value with that
+	// end-of-line cut off (LF, CR: one byte; CR LF: one and two bytes), and whether the last
+	// byte is a CR (CR + the Writer's LF cannot be told from a CR LF end-of-line marker
+	// without /Length)
+	shortVals map[string]bool
+	endsCR    bool
+}
+
+// eolTail fills shortVals / endsCR for a stream with this digest prefix and body
+func (rc *rec) eolTail(prefix string, body []byte, markerLF bool) {
+	n := len(body)
+	if n == 0 || (body[n-1] != '\n' && body[n-1] != '\r') {
+		return
+	}
+	rc.shortVals = map[string]bool{digest(prefix + string(body[:n-1])): true}
+	if n >= 2 && body[n-2] == '\r' && body[n-1] == '\n' {
+		rc.shortVals[digest(prefix+string(body[:n-2]))] = true
+	}
+	rc.endsCR = body[n-1] == '\r' && markerLF
 }
 
 var indirectLength = regexp.MustCompile(`/Length ([0-9]+) 0 R`)
@@ -211,6 +230,7 @@ func (g *generator) writeRaw(v pdf.Version, hr bool, vals []pdf.Object, bodies [
 				panic(err)
 			}
 			rc.val = digest("stream" + pdf.AsString(pdf.Dict{"K": pdf.Integer(i)}) + string(bodies[i]))
+			rc.eolTail("stream"+pdf.AsString(pdf.Dict{"K": pdf.Integer(i)}), bodies[i], true)
 		} else {
 			o := vals[i]
 			if o == nil {
@@ -566,8 +586,21 @@ func (t *runner) oracle(d *doc, data []byte, avail int, fi *pdf.FileInfo, scanEr
 			o, err := fi.Read(found)
 			if err != nil {
 				fail("complete-object-unreadable", fmt.Sprintf("object %v: %v", rc.ref, err))
-			} else if !rc.noVal && valueDigest(o) != rc.val {
-				fail("complete-object-wrong-value", fmt.Sprintf("object %v reads back with a different value", rc.ref))
+			} else if got := valueDigest(o); !rc.noVal && got != rc.val {
+				// the /Length object of this stream is not (completely) within the bytes: the
+				// extent is recovered by searching for endstream
+				unresolved := rc.lenEnd > 0 && avail < rc.lenEnd
+				switch {
+				case unresolved && rc.endsCR && rc.shortVals[got]:
+					// data ending in CR, followed by the Writer's LF: without /Length nothing
+					// tells this from a CR LF end-of-line marker; not a failure
+				case unresolved && rc.shortVals[got] && !spurious:
+					emit("stream-data-loses-trailing-eol-when-length-is-unresolved",
+						fmt.Sprintf("stream %v (complete at %d, /Length object cut off at %d): the data read lacks its trailing end-of-line although exactly one end-of-line marker precedes endstream", rc.ref, rc.end, avail),
+						map[string]any{"id": id, "what": what, "available_bytes": avail, "file_hex": hex.EncodeToString(data), "doc": d.class})
+				default:
+					fail("complete-object-wrong-value", fmt.Sprintf("object %v reads back with a different value", rc.ref))
+				}
 			}
 			if rc.objstm {
 				listed := false
@@ -947,6 +980,28 @@ func main() {
 		t.allCuts(d)
 	}
 	lap("value kinds, all cuts")
+	// stream data ending in every combination of end-of-line bytes x /Length in an object
+	// before / after the stream: hand-laid-out (all cuts), and written by the Writer to a sink
+	// that cannot seek with bodies of more than one scanner window (the cuts around the window
+	// in which the stream is complete and its /Length object is not; all cuts when thorough)
+	t.allCuts(g.eolTailDoc())
+	for i, tail := range eolTails {
+		d := g.eolTailWriterDoc(tail, 1024+97*i)
+		rc := d.recs[1]
+		if rc.lenEnd == 0 {
+			panic("stream without an indirect /Length")
+		}
+		if e.Thorough {
+			t.allCuts(d)
+			continue
+		}
+		var cuts []int
+		for c := rc.end - 2; c <= rc.lenEnd+1; c++ {
+			cuts = append(cuts, c)
+		}
+		t.allCutsSparse(d, append(cuts, len(d.data), len(d.data)-1, rc.start+30))
+	}
+	lap("stream data ending in EOLs")
 	// the same kinds written by the Writer into compressed object streams (PDF 1.5+)
 	for i := 0; i < e.Pick(2, 12); i++ {
 		d := g.compressedDoc(i)
